@@ -357,20 +357,27 @@ macro_rules! impl_tryfrom_integer {
                         .or_else(|e| {
                             if matches!(e, lexical_core::Error::InvalidDigit(_)) {
                                 let value = lexical_core::parse::<$intermediate>(value)?;
+                                // MIN and MAX + 1 are powers of two (or zero), exact as floats
+                                let lo = <$from>::MIN as $intermediate;
+                                let hi = ((<$from>::MAX / 2 + 1) as $intermediate) * 2.0;
 
-                                if !value.is_normal() {
-                                    Err(lexical_core::Error::Overflow(0).into())
-                                } else if value > (<$from>::MAX as $intermediate) {
-                                    Err(lexical_core::Error::Overflow(0).into())
-                                } else if value < (<$from>::MIN as $intermediate) {
+                                // value rounds (half away from zero) into MIN..=MAX
+                                // iff MIN - 0.5 < value < MAX + 0.5, also rejects NaN/Inf
+                                if !(value - lo > -0.5) {
                                     Err(lexical_core::Error::Underflow(0).into())
+                                } else if !(value - hi < -0.5) {
+                                    Err(lexical_core::Error::Overflow(0).into())
                                 } else {
                                     // <f32|f64>::round() doesn't exist in no_std...
-                                    // Safe because value is checked to be normal and within bounds earlier
-                                    if value.is_sign_positive() {
-                                        Ok(unsafe { (value + 0.5).to_int_unchecked() })
+                                    // Truncate (in range), then round on the exact fraction
+                                    let trunc = value as $from;
+                                    let frac = value - (trunc as $intermediate);
+                                    if frac >= 0.5 {
+                                        Ok(trunc + 1)
+                                    } else if frac <= -0.5 {
+                                        Ok(trunc - 1)
                                     } else {
-                                        Ok(unsafe { (value - 0.5).to_int_unchecked() })
+                                        Ok(trunc)
                                     }
                                 }
                             } else {
